@@ -1336,7 +1336,7 @@ func layoutDiff(impl, ref []Tok, aliases map[string]string, prefixOK bool) strin
 		}
 		af, bf := norm(a.Field), b.Field
 		switch {
-		case af == bf, af == "_", strings.Contains(af, "(_)"), af == "#derived", af == "#skip", strings.HasPrefix(af, "#const"):
+		case af == bf, af == "_", strings.Contains(af, "(_)"), strings.Contains(af, "(#derived)"), af == "#derived", af == "#skip", strings.HasPrefix(af, "#const"):
 			// equal, unnamed, or a computed value the extractor cannot name: not a definite disagreement
 		case af == "#crc" && strings.HasSuffix(bf, "crc"):
 		default:
